@@ -685,7 +685,10 @@ class Curve(BaseCurve):
         """
         nodes = tuple(nodes)
         oldvector = tuple(self.knotvector)
-        newvector = tuple(self.knotvector + nodes)
+        newvector = self.knotvector + nodes
+        if newvector.degree != self.degree:  # Copies of both end knots
+            raise ValueError(f"Cannot insert nodes {nodes} in knotvector {oldvector}")
+        newvector = tuple(newvector)
         if self.ctrlpoints is None and self.weights is None:
             self.knotvector = newvector
         matrix = heavy.Operations.knot_insert(oldvector, nodes)
